@@ -621,6 +621,9 @@ impl Scenario for AesSc {
                 e.z64_first = rz.chance(1, 2);
             }
             if rz.chance(1, 5) {
+                e.gp_hint = rz.pickc(&[2u16, 4, 6]);
+            }
+            if rz.chance(1, 5) {
                 let rec = real_world_records(&mut rz, &e.name.0, &[], false);
                 e.extra_central = Hex(rec.clone());
                 if rz.chance(1, 2) {
@@ -1231,6 +1234,11 @@ impl Scenario for ZipCryptoSc {
                     e.extra_central.0.extend_from_slice(&ut_c);
                     e.extra_local.0.extend_from_slice(&ut_l);
                     ctx.probe("foreign_entry_with_extended_timestamp");
+                }
+                if rx.chance(1, 3) {
+                    // zip -9e / zip -1e / 7-Zip -mx: the compression-effort hint in the general-purpose flags
+                    e.gp_hint = rx.pickc(&[2u16, 4, 6]);
+                    ctx.probe("foreign_entry_with_effort_hint_bits");
                 }
                 if rx.chance(1, 3) {
                     let ux = [0x75u8, 0x78, 11, 0, 1, 4, 0xe8, 3, 0, 0, 4, 0xe8, 3, 0, 0];
